@@ -329,6 +329,7 @@ func (e *Engine) run(fr *Frame) Value {
 	p := e.p
 	block := fn.Blocks[0]
 	var prev *ssa.BasicBlock
+	skipPhi := false
 	for {
 		p.steps += int64(len(block.Instrs))
 		if p.steps > e.stepLimit {
@@ -336,7 +337,15 @@ func (e *Engine) run(fr *Frame) Value {
 		}
 		// phis first (simultaneous assignment)
 		nphi := 0
-		if prev != nil {
+		if skipPhi {
+			skipPhi = false
+			for _, in := range block.Instrs {
+				if _, ok := in.(*ssa.Phi); !ok {
+					break
+				}
+				nphi++
+			}
+		} else if prev != nil {
 			predIdx := -1
 			for i, pb := range block.Preds {
 				if pb == prev {
@@ -439,6 +448,13 @@ func (e *Engine) run(fr *Frame) Value {
 				e.programPanic("explicit panic: " + e.panicString(v))
 			case *ssa.If:
 				c := e.get(fr, x.Cond).(*Term)
+				if !c.IsConst() && !e.noIfConv {
+					if j := e.ifConvert(fr, block, c); j != nil {
+						next = j
+						skipPhi = true
+						break
+					}
+				}
 				if e.branch(c) {
 					next = block.Succs[0]
 				} else {
@@ -1003,4 +1019,256 @@ func (e *Engine) next(x *ssa.Next, it *IterV) Value {
 	}
 	mt := x.Type().(*types.Tuple)
 	return TupleV{e.ts.False, e.zero(mt.At(1).Type(), nil), e.zero(mt.At(2).Type(), nil)}
+}
+
+// ---- local if-conversion ----
+//
+// An If on a symbolic condition whose arms are short, side-effect free and rejoin in a common
+// block (a && b, a || b, min/max, "if c { x = 1 }") is evaluated on both sides and the join's
+// phis become ite terms, instead of forking the path. Anything that could fork, panic or have
+// an effect inside an arm aborts the attempt, and the If is then forked normally.
+
+type specAbort struct{}
+
+type specEdge struct {
+	pred  *ssa.BasicBlock
+	guard *Term
+}
+
+func (e *Engine) ifConvert(fr *Frame, block *ssa.BasicBlock, cond *Term) (join *ssa.BasicBlock) {
+	s0, s1 := block.Succs[0], block.Succs[1]
+	reach := func(from *ssa.BasicBlock, target *ssa.BasicBlock) bool {
+		// target reachable from `from` within 3 steps through single-pred blocks
+		cur := []*ssa.BasicBlock{from}
+		for d := 0; d < 4; d++ {
+			var nxt []*ssa.BasicBlock
+			for _, b := range cur {
+				if b == target {
+					return true
+				}
+				if len(b.Preds) != 1 {
+					continue
+				}
+				nxt = append(nxt, b.Succs...)
+			}
+			cur = nxt
+		}
+		return false
+	}
+	var J *ssa.BasicBlock
+	switch {
+	case s0 == s1:
+		return nil
+	case len(s0.Preds) == 1 && reach(s0, s1):
+		J = s1
+	case len(s1.Preds) == 1 && reach(s1, s0):
+		J = s0
+	case len(s0.Preds) == 1 && len(s1.Preds) == 1 && len(s0.Succs) == 1 && len(s1.Succs) == 1 && s0.Succs[0] == s1.Succs[0]:
+		J = s0.Succs[0]
+	default:
+		return nil
+	}
+	if J == block {
+		return nil
+	}
+	// only boolean joins (a && b, a || b): merged integers would flow into indices and
+	// lengths as ite terms and cost more (case splits later) than the fork saved here
+	nph := 0
+	for _, in := range J.Instrs {
+		phi, isPhi := in.(*ssa.Phi)
+		if !isPhi {
+			break
+		}
+		if !isBool(phi.Type()) {
+			return nil
+		}
+		nph++
+	}
+	if nph == 0 {
+		return nil
+	}
+	var edges []specEdge
+	ok := true
+	func() {
+		saved := e.spec
+		e.spec = true
+		defer func() {
+			e.spec = saved
+			if r := recover(); r != nil {
+				if _, isAbort := r.(specAbort); isAbort {
+					ok = false
+					return
+				}
+				panic(r)
+			}
+		}()
+		var walk func(from, b *ssa.BasicBlock, guard *Term, depth int)
+		walk = func(from, b *ssa.BasicBlock, guard *Term, depth int) {
+			if b == J {
+				edges = append(edges, specEdge{from, guard})
+				return
+			}
+			if depth > 4 || len(b.Preds) != 1 || len(b.Instrs) > 24 {
+				panic(specAbort{})
+			}
+			e.p.steps += int64(len(b.Instrs))
+			for _, in := range b.Instrs {
+				switch x := in.(type) {
+				case *ssa.DebugRef:
+				case *ssa.UnOp:
+					e.set(fr, x, e.unop(fr, x))
+				case *ssa.BinOp:
+					e.set(fr, x, e.binop(x.Op, x.X.Type(), x.Y.Type(), e.get(fr, x.X), e.get(fr, x.Y)))
+				case *ssa.Convert:
+					e.set(fr, x, e.convert(x.X.Type(), x.Type(), e.get(fr, x.X)))
+				case *ssa.ChangeType:
+					e.set(fr, x, e.get(fr, x.X))
+				case *ssa.ChangeInterface:
+					e.set(fr, x, e.get(fr, x.X))
+				case *ssa.MakeInterface:
+					e.set(fr, x, IfaceV{t: x.X.Type(), v: e.get(fr, x.X)})
+				case *ssa.Extract:
+					e.set(fr, x, e.get(fr, x.Tuple).(TupleV)[x.Index])
+				case *ssa.Field:
+					e.set(fr, x, e.get(fr, x.X).(*StructV).f[x.Field].v)
+				case *ssa.FieldAddr:
+					ptr := e.get(fr, x.X).(Ptr)
+					if ptr.IsNil() || ptr.sym != nil {
+						panic(specAbort{})
+					}
+					sv := ptr.c.v.(*StructV)
+					e.set(fr, x, Ptr{c: &sv.f[x.Field], hdr: sv.hdr})
+				case *ssa.IndexAddr:
+					e.set(fr, x, e.indexAddr(fr, x))
+				case *ssa.Index:
+					e.set(fr, x, e.index(fr, x))
+				case *ssa.Call:
+					bi, isB := x.Call.Value.(*ssa.Builtin)
+					if !isB || (bi.Name() != "len" && bi.Name() != "cap") {
+						panic(specAbort{})
+					}
+					e.set(fr, x, e.callCommon(fr, &x.Call))
+				case *ssa.Jump:
+					walk(b, b.Succs[0], guard, depth+1)
+					return
+				case *ssa.If:
+					c := e.get(fr, x.Cond).(*Term)
+					if c.IsConst() {
+						if c.val != 0 {
+							walk(b, b.Succs[0], guard, depth+1)
+						} else {
+							walk(b, b.Succs[1], guard, depth+1)
+						}
+						return
+					}
+					if b.Succs[0] == b.Succs[1] {
+						panic(specAbort{})
+					}
+					walk(b, b.Succs[0], e.ts.And(guard, c), depth+1)
+					walk(b, b.Succs[1], e.ts.And(guard, e.ts.Not(c)), depth+1)
+					return
+				default:
+					panic(specAbort{})
+				}
+			}
+			panic(specAbort{})
+		}
+		walk(block, s0, cond, 0)
+		walk(block, s1, e.ts.Not(cond), 0)
+	}()
+	if !ok || len(edges) < 2 {
+		return nil
+	}
+	// compute the phis of J
+	predIndex := func(pb *ssa.BasicBlock) int {
+		idx, cnt := -1, 0
+		for i, q := range J.Preds {
+			if q == pb {
+				idx = i
+				cnt++
+			}
+		}
+		if cnt != 1 {
+			return -1
+		}
+		return idx
+	}
+	var phis []*ssa.Phi
+	for _, in := range J.Instrs {
+		phi, isPhi := in.(*ssa.Phi)
+		if !isPhi {
+			break
+		}
+		phis = append(phis, phi)
+	}
+	vals := make([]Value, len(phis))
+	for pi, phi := range phis {
+		var acc Value
+		for k := len(edges) - 1; k >= 0; k-- {
+			ed := edges[k]
+			ix := predIndex(ed.pred)
+			if ix < 0 {
+				return nil
+			}
+			v := e.get(fr, phi.Edges[ix])
+			if acc == nil {
+				acc = v
+				continue
+			}
+			at, ok1 := acc.(*Term)
+			vt, ok2 := v.(*Term)
+			if ok1 && ok2 {
+				acc = e.ts.Ite(ed.guard, vt, at)
+				continue
+			}
+			// non-scalar values must coincide
+			eq := e.valuesEqualNoFork(v, acc)
+			if !eq {
+				return nil
+			}
+		}
+		vals[pi] = acc
+	}
+	for pi, phi := range phis {
+		e.set(fr, phi, vals[pi])
+	}
+	e.stats.IfConverted++
+	return J
+}
+
+// valuesEqualNoFork is a conservative syntactic equality used by if-conversion.
+func (e *Engine) valuesEqualNoFork(a, b Value) bool {
+	switch x := a.(type) {
+	case string:
+		y, ok := b.(string)
+		return ok && x == y
+	case Ptr:
+		y, ok := b.(Ptr)
+		return ok && x.c == y.c && x.sym == y.sym && x.arr == y.arr
+	case float64:
+		y, ok := b.(float64)
+		return ok && x == y
+	case *Term:
+		y, ok := b.(*Term)
+		return ok && x == y
+	case IfaceV:
+		y, ok := b.(IfaceV)
+		if !ok {
+			return false
+		}
+		if x.t == nil || y.t == nil {
+			return x.t == nil && y.t == nil
+		}
+		return types.Identical(x.t, y.t) && e.valuesEqualNoFork(x.v, y.v)
+	case *FuncV:
+		y, ok := b.(*FuncV)
+		return ok && x == y
+	case *MapV:
+		y, ok := b.(*MapV)
+		return ok && x == y
+	case SliceV:
+		y, ok := b.(SliceV)
+		return ok && x == y
+	}
+	return false
 }
